@@ -1,47 +1,28 @@
-"""C02 — version ordering agrees with each ecosystem's own implementation.
-
-Thin driver: every module in harness/props/parts/ that defines c02(ctx) contributes its
-ecosystem (the PyPI part is parts/pypi.py)."""
+"""C02 driver: runs every part module (harness/props/parts/*.py) that defines c02(ctx)."""
+import glob
 import importlib
 import os
-import pkgutil
-
 import lib
 
 PROOF_FILE = "C02"
 LEVEL = "proof"
-RULE = ("pools of strings of each ecosystem's version grammar (alternative spellings, boundary numbers, normalised forms); "
-        "all ordered pairs accepted by both the library and the reference are compared: Go Compare vs the extracted "
-        "declarative reference; every normalised form must be accepted. A string is non-trivial when both sides accept it")
+RULE = "see the per-system parts; distinct accepted version strings / pairs are counted as non-trivial"
 TRUSTED = [
-    "Coq 8.16.1 kernel (+vm_compute for refuted witnesses)",
-    "the declarative references in coq/Spec (PEP 440: transcription of packaging.version; re-validated against packaging when python3-vt is present)",
-    "translator gotables (PEP 440 spelling tables regenerated each run); extraction + driver.ml; Go harness; python generators",
+    "Coq 8.16.1 kernel", "hook H4 (semver.VerifDump)", "translator gotables",
+    "extraction (ExtrOcamlBasic only) + driver.ml; Go harness; python generators",
+    "declarative specifications in coq/Spec are transcriptions of the published algorithms",
 ]
-ASSUMPTIONS = [
-    "models validated against the implementation by execution on every run (parser and comparator correspondence), not verified against the Go source",
-    "PyPI: the reference is defined on ASCII input with unbounded integers",
-]
-MANIFEST = dict(
-    category="proof",
-    text=("Per ecosystem a declarative reference in Gallina and theorems model = reference on a stated domain, refuted "
-          "witnesses where the code differs (known findings), acceptance of normalised forms; tie: parser and comparator "
-          "correspondence, Go vs extracted reference on all pairs of generated pools."),
-    note="Trusted: Coq kernel, the transcribed references, translator, extraction+driver, Go harness, generators.",
-    technique="Rocq proof (model = declarative reference on a domain) + differential correspondence + reference oracle",
-    design="8 C02")
-
-
-def _parts(fn):
-    import props.parts as parts
-    out = []
-    for m in sorted(pkgutil.iter_modules([os.path.dirname(parts.__file__)]), key=lambda m: m.name):
-        mod = importlib.import_module("props.parts." + m.name)
-        if hasattr(mod, fn):
-            out.append((m.name, getattr(mod, fn)))
-    return out
+ASSUMPTIONS = ["hand-written model validated by execution on every run"]
+MANIFEST = dict(category="proof", text="Declarative specifications (coq/Spec) written independently of the model — SemVer 2.0.0 precedence for npm/Cargo/Go; the per-ecosystem specs in the part modules — with theorems that the model's comparison equals the specification on the stated domain (Properties/C02*.v: full where provable, _partial with the domain predicate, _refuted with witnesses for the recorded findings). The implementation is compared with the extracted specification on generated pairs of strict strings, and every normal-form string must be accepted.", note='Specifications are transcriptions of the published algorithms, validated against the real tools only where those happen to be installed. The tie from strings to structures is the model parser (validated by correspondence) and hook H4.', technique='Rocq proof model = declarative spec on a domain + differential test implementation vs extracted spec', design='8 C02')
 
 
 def run(ctx):
-    for name, f in _parts("c02"):
-        f(ctx)
+    here = os.path.dirname(os.path.abspath(__file__))
+    for f in sorted(glob.glob(os.path.join(here, "parts", "*.py"))):
+        name = os.path.basename(f)[:-3]
+        if name.startswith("_"):
+            continue
+        mod = importlib.import_module("props.parts." + name)
+        fn = getattr(mod, "c02", None)
+        if fn:
+            fn(ctx)
